@@ -396,7 +396,8 @@ func checkC08(c *Check) {
 	// 5. failure causes surface
 	n := importRules(c, "C12", checkC12, "failure-cause: pipe read/callback error -> ", "read-error-ends-delivery", "callback-error-returned-unchanged")
 	n += importRules(c, "C15", checkC15, "failure-cause: audit line/correlator error -> ", "no-error-dropped", "parse-error-identifies-line", "processor-returns-received-error", "error-handoff-keeps-first-error")
-	c.Floor("imported failure-cause obligations (C12, C15 rules)", 20, n)
+	n += importRules(c, "C06", checkC06, "failure-cause: sshd line error -> ", "line-error-returned")
+	c.Floor("imported failure-cause obligations (C12, C15, C06 rules)", 22, n)
 	nw := 0
 	for _, es := range EmitSites(p) {
 		if FuncPkgPath(es.Fn) != ModPath+"/"+pkgSshd {
